@@ -223,6 +223,99 @@ async fn run_batch(answers: Vec<(i64, bool)>) -> Result<Vec<Vec<(String, bool)>>
     Ok(out)
 }
 
+/// Push path with a source (or destination) that answers one request of a push later than the
+/// client's timeout: the push fails, and the next push of ANOTHER key must still be transferred
+/// with its own expiry - the unread late reply sits on the connection the failed push used.
+/// `late_at` = index of the control request of the failing push whose reply is late
+/// (0 = PTTL+DUMP at the source, 1 = RESTORE at the destination, 2 = DEL at the source).
+/// Returns the (ttl argument, payload is k's own) of every RESTORE of the second key.
+async fn run_late_reply(late_at: usize, j_ttl: Option<u64>, k_ttl: Option<u64>) -> Result<(Vec<(String, bool)>, String), String> {
+    let cfg = BrokerCfg { ordered: false, migration_limit: 0, failure_quorum: 1, failure_ttl: 100000 };
+    let sim = ClusterSim::new(&[2, 2], &cfg, &ProxyOpts::default(), None);
+    for op in [Op::AddCluster { name: "c1".into(), n: 4 }, Op::AutoAddNodes { name: "c1".into(), n: 4 }, Op::MigrateSlots { name: "c1".into() }] {
+        let r = sim.apply(&op);
+        if !r.starts_with("OK") {
+            return Err(format!("{:?} -> {}", op, r));
+        }
+    }
+    let mig = first_migration(&sim).ok_or("no migration")?;
+    let all = crate::util::slot_keys();
+    let (kw, kj, kk) = (all[mig.lo + 1].clone(), all[mig.lo + 2].clone(), all[mig.lo + 3].clone());
+    {
+        let (kw, kj, kk) = (kw.clone(), kj.clone(), kk.clone());
+        sim.world.with_redis(&mig.src_node, move |r, now| {
+            r.exec(&vec![b"SET".to_vec(), kw.clone(), b"value-w".to_vec()], now);
+            r.exec(&vec![b"SET".to_vec(), kj.clone(), b"value-j".to_vec()], now);
+            r.exec(&vec![b"SET".to_vec(), kk.clone(), b"value-k".to_vec()], now);
+            if let Some(t) = j_ttl {
+                r.exec(&vec![b"PEXPIRE".to_vec(), kj.clone(), t.to_string().into_bytes()], now);
+            }
+            if let Some(t) = k_ttl {
+                r.exec(&vec![b"PEXPIRE".to_vec(), kk.clone(), t.to_string().into_bytes()], now);
+            }
+        });
+    }
+    // the scan is held throughout: only the push path moves keys
+    sim.world.set_gate(Some(Box::new(move |r: &ReqInfo| {
+        let c0 = r.cmds.first().and_then(|c| c.first()).map(|b| String::from_utf8_lossy(b).to_uppercase()).unwrap_or_default();
+        if r.control && c0 == "SCAN" { Gate::Hold } else { Gate::Pass }
+    })));
+    sim.sync_until_converged(false, 4).await?;
+    sim.world.advance_ms(60).await;
+    // 1. warm-up push: the pooled connections of the push path now exist
+    let r1 = show_resp(&sim.world.client(&mig.dst_proxy, &vec![b"EXPIRE".to_vec(), kw.clone(), b"1000".to_vec()]).await);
+    sim.world.advance_ms(5).await;
+    // 2. push of j; the reply of its `late_at`-th control request arrives after the timeout
+    let kj2 = kj.clone();
+    let counter = std::sync::Arc::new(std::sync::atomic::AtomicUsize::new(0));
+    let c2 = counter.clone();
+    sim.world.set_gate(Some(Box::new(move |r: &ReqInfo| {
+        let c0 = r.cmds.first().and_then(|c| c.first()).map(|b| String::from_utf8_lossy(b).to_uppercase()).unwrap_or_default();
+        if r.control && c0 == "SCAN" {
+            return Gate::Hold;
+        }
+        let about_j = r.control && r.cmds.iter().any(|c| c.iter().skip(1).any(|a| *a == kj2)) && matches!(c0.as_str(), "PTTL" | "RESTORE" | "DEL");
+        if about_j {
+            let n = c2.fetch_add(1, std::sync::atomic::Ordering::SeqCst);
+            if n == late_at {
+                return Gate::Hold;
+            }
+        }
+        Gate::Pass
+    })));
+    let reply_j = std::sync::Arc::new(std::sync::Mutex::new(None::<String>));
+    {
+        let (w, p, r2, c) = (sim.world.clone(), mig.dst_proxy.clone(), reply_j.clone(), vec![b"EXPIRE".to_vec(), kj.clone(), b"1000".to_vec()]);
+        tokio::spawn(async move {
+            let r = w.client(&p, &c).await;
+            *r2.lock().unwrap() = Some(show_resp(&r));
+        });
+    }
+    let mut released = false;
+    for _ in 0..30 {
+        sim.world.settle().await;
+        let held: Vec<u64> = sim.world.pending_infos().iter().filter(|p| p.cmds.first().and_then(|c| c.first()).map(|b| !b.eq_ignore_ascii_case(b"SCAN")).unwrap_or(false)).map(|p| p.id).collect();
+        if let Some(id) = held.first() {
+            sim.world.release(*id, Release::LateReply);
+            released = true;
+            break;
+        }
+        sim.world.advance_ms(1).await;
+    }
+    sim.world.advance_ms(20).await;
+    let mark = sim.world.log_len();
+    // 3. push of k on whatever connections the push path uses now
+    let r3 = show_resp(&sim.world.client(&mig.dst_proxy, &vec![b"EXPIRE".to_vec(), kk.clone(), b"1000".to_vec()]).await);
+    sim.world.advance_ms(20).await;
+    let ev = sim.world.events_since(mark);
+    let restores: Vec<(String, bool)> = ev
+        .iter()
+        .filter(|e| e.kind == "redis" && e.at == mig.dst_node && e.cmd.first().map(|c| c.eq_ignore_ascii_case(b"RESTORE")).unwrap_or(false) && e.cmd.get(1) == Some(&kk))
+        .map(|e| (e.cmd.get(2).map(|t| String::from_utf8_lossy(t).to_string()).unwrap_or_default(), e.cmd.get(3).map(|p| p.ends_with(b"value-k")).unwrap_or(false)))
+        .collect();
+    Ok((restores, format!("warm-up {} / failing push {:?} (late reply injected: {}) / second push {}", r1, reply_j.lock().unwrap().clone(), released, r3)))
+}
+
 fn batch_cases(thorough: bool) -> Vec<Vec<(i64, bool)>> {
     let n = BATCH_ANSWERS.len();
     let mut v = vec![];
@@ -435,7 +528,49 @@ pub fn run(cli: &Cli) -> (Value, Vec<Violation>) {
         }
     }
     n += batch_n;
+    // ---- late-reply family: a push fails by timeout, the next push must keep its own expiry ----
+    let mut late_cases = 0usize;
+    let mut late_restores = 0usize;
+    for late_at in 0..3usize {
+        for (j_ttl, k_ttl) in [(None, Some(5000u64)), (Some(5000u64), None), (Some(700), Some(5000))] {
+            late_cases += 1;
+            let r = vh::det::on_fresh_thread(3000 + late_cases as u64, 32 << 20, move || run_sim(run_late_reply(late_at, j_ttl, k_ttl)));
+            let mut add = |key: String, desc: String| {
+                if viol.iter().filter(|v| v.key == key).count() < 1 {
+                    viol.push(Violation { key, desc, replay: json!({"family": "late-reply", "late_at": late_at, "first_key_ttl_ms": j_ttl, "second_key_ttl_ms": k_ttl}) });
+                }
+            };
+            match r {
+                Ok(Ok((restores, how))) => {
+                    for (ttl, own) in restores {
+                        late_restores += 1;
+                        classes.insert(format!("LateReply/late_at={}/k_ttl={:?}/restore-ttl-class={}", late_at, k_ttl, if ttl == "0" { "0" } else { ">0" }));
+                        let what = format!("a push whose reply #{} came after the client's timeout (first key ttl {:?}), then a push of another key with ttl {:?}: that key was restored with ttl argument {:?}{} [{}]", late_at, j_ttl, k_ttl, ttl, if own { "" } else { " and with the payload of ANOTHER key" }, how);
+                        if !own {
+                            add("LateReply:restored-with-another-keys-payload".into(), what.clone());
+                        }
+                        match k_ttl {
+                            None => {
+                                if ttl != "0" {
+                                    add("LateReply:persistent-key-not-restored-as-persistent".into(), what);
+                                }
+                            }
+                            Some(p) => {
+                                if !matches!(ttl.parse::<i64>().ok(), Some(x) if x >= 1 && x <= p as i64) {
+                                    add("LateReply:ttl-not-preserved".into(), what);
+                                }
+                            }
+                        }
+                    }
+                }
+                Ok(Err(e)) => add("LateReply:setup-failed".into(), e),
+                Err(_) => add("LateReply:panicked".into(), "the proxy code panicked".into()),
+            }
+        }
+    }
+    n += late_cases;
     let cov = json!({
+        "late_reply_family": {"cases": late_cases, "restores_judged": late_restores, "rule": "push path: warm-up push, then a push in which the reply of the PTTL+DUMP / RESTORE / DEL request arrives after the client's timeout (the request is executed, the caller sees a timeout, the unread reply stays on that connection), then a push of another key with a different expiry; every RESTORE of the second key is judged against its own expiry and payload"},
         "batch_family": {"cases": batch_n, "restores_judged": batch_restores, "rule": "2-3 (thorough 4) keys of the migrating range in one scan batch, each answering from {(-2,nil),(-2,payload),(-1,payload),(-1,nil),(5000,payload),(7,nil)} = (PTTL reply, DUMP reply) - the disagreeing pairs model a key that expires / is deleted / is created between the pipelined PTTL and DUMP; every RESTORE reaching the destination is judged against the PTTL answer of its OWN key"},
         "evaluations": n,
         "distinct_nontrivial": classes.len().max(2),
